@@ -8,7 +8,8 @@ from scipy.linalg import norm
 
 # Local Imports
 from ..bodies import Earth
-from ..maths import fpe_equals, rot1, rot3
+from ..constants import PI, TWOPI
+from ..maths import fpe_equals, rot1, rot3, wrapAngle2Pi
 from . import isEccentric, isInclined
 from .anomaly import eccLong2MeanLong, meanLong2EccLong, meanLong2TrueAnom, trueAnom2MeanLong
 from .utils import (
@@ -128,6 +129,9 @@ def eci2coe(eci_state: ndarray, mu: float = Earth.mu) -> OrbitalElementTuple:
 
     if not inclined and eccentric:
         true_long_periapsis = getTrueLongitudePeriapsis(ecc_vec)
+        if inc > 0.5 * PI:
+            # Retrograde equatorial: the in-plane angle runs the other way round (Vallado, rv2coe)
+            true_long_periapsis = wrapAngle2Pi(TWOPI - true_long_periapsis)
         true_anomaly = getTrueAnomaly(pos_vec, vel_vec, ecc_vec)
         # RAAN, Ω, is undefined
         return sma, ecc, inc, 0.0, true_long_periapsis, true_anomaly
@@ -140,6 +144,9 @@ def eci2coe(eci_state: ndarray, mu: float = Earth.mu) -> OrbitalElementTuple:
 
     # else:  # Circular and Equatorial
     true_longitude = getTrueLongitude(pos_vec)
+    if inc > 0.5 * PI:
+        # Retrograde equatorial: the in-plane angle runs the other way round (Vallado, rv2coe)
+        true_longitude = wrapAngle2Pi(TWOPI - true_longitude)
     # RAAN, Ω, and Arg. Perigee, ω, are undefined
     return sma, ecc, inc, 0.0, 0.0, true_longitude
 
